@@ -590,6 +590,20 @@ pub fn gen_tickets(seed: u64, capacity_focus: bool) -> Scenario {
                 ops.push(Op::Abandon);
                 ops.push(Op::Open);
             }
+            5 if r.chance(1, 2) => {
+                // the one authentic signed ticket there is (seq 9): on the memory it names, on
+                // another one, on an unbound one, untouched or with one field changed
+                if !bound && r.chance(2, 3) {
+                    ops.push(if r.chance(2, 3) { Op::BindPinned } else { Op::Bind { memory: 7 } });
+                    bound = true;
+                }
+                ops.push(Op::PinnedTicket { tamper: *r.pickv(&[0u8, 0, 0, 1, 2, 3, 4, 5]) });
+                if seq < 9 && r.chance(1, 2) {
+                    // (whether it was accepted is the executor's business; the generator only keeps
+                    // later plain tickets above it half of the time)
+                    seq = 9;
+                }
+            }
             5 => {
                 if !bound && r.chance(1, 2) {
                     ops.push(Op::Bind { memory: 7 });
